@@ -182,8 +182,9 @@ def finish(ctx: Ctx, t0: float, level: str = "other", write_evidence: bool = Tru
         write_evidence_file(ctx, t0, level, len(new), len(matched), selftest)
     if not ctx.quiet:
         n = len(ctx.obligations)
+        und = sum(1 for o in ctx.obligations if getattr(o, "undecided", False))
         print(
-            f"{ctx.prop} [{ctx.tier}] rules={len(ctx.rules_applied)} obligations={n} discharged={n - len(fails)} "
+            f"{ctx.prop} [{ctx.tier}] rules={len(ctx.rules_applied)} obligations={n} discharged={n - len(fails) - und} undecided={und} "
             f"known_findings={len(matched)} new_violations={len(new)} wall={time.time() - t0:.2f}s"
         )
     return rc
